@@ -34,6 +34,7 @@ class PresenceResourceService(BaseResourceServiceImpl):
     __slots__ = (
         'hostname',
         'presence',
+        'holders',
     )
 
     PAYLOAD_SCHEMA = (('endpoints', True, list),
@@ -44,6 +45,8 @@ class PresenceResourceService(BaseResourceServiceImpl):
         super(PresenceResourceService, self).__init__()
         self.hostname = sysinfo.hostname()
         self.presence = collections.defaultdict(dict)
+        # path -> ids of all the requests the node is registered for.
+        self.holders = collections.defaultdict(set)
 
     @property
     def zkclient(self):
@@ -81,6 +84,7 @@ class PresenceResourceService(BaseResourceServiceImpl):
                 return None
 
             self.presence[app_name][path] = rsrc_id
+            self.holders[path].add(rsrc_id)
 
             # Register endpoints.
             for endpoint in rsrc_data.get('endpoints', []):
@@ -98,6 +102,7 @@ class PresenceResourceService(BaseResourceServiceImpl):
                     return None
 
                 self.presence[app_name][path] = rsrc_id
+                self.holders[path].add(rsrc_id)
 
             # Register identity.
             identity_group = rsrc_data.get('identity_group')
@@ -112,6 +117,7 @@ class PresenceResourceService(BaseResourceServiceImpl):
                     return None
 
                 self.presence[app_name][path] = rsrc_id
+                self.holders[path].add(rsrc_id)
 
         return {}
 
@@ -122,13 +128,20 @@ class PresenceResourceService(BaseResourceServiceImpl):
             app_name = appcfg.app_name(rsrc_id)
 
             to_delete = [
-                path for path in self.presence[app_name]
-                if self.presence[app_name][path] == rsrc_id
+                path for path, holders in self.holders.items()
+                if rsrc_id in holders
             ]
 
             for path in to_delete:
+                self.holders[path].discard(rsrc_id)
+                if self.holders[path]:
+                    # Still registered for another (newer) container.
+                    if self.presence[app_name].get(path) == rsrc_id:
+                        del self.presence[app_name][path]
+                    continue
+                del self.holders[path]
                 self._safe_delete(path)
-                del self.presence[app_name][path]
+                self.presence[app_name].pop(path, None)
 
             if not self.presence[app_name]:
                 del self.presence[app_name]
